@@ -378,3 +378,5 @@ def run(ctx):
                    f.site, f.detail + "; the sweep aborts at this app and never empties "
                    "the apps sorted after it", render_path(f.path.events) if f.path else None)
     ctx.ob("R13.noraise", "sweep paths analysed", True, "", "%d paths" % len(timer))
+
+EXPLANATION += ' Batch 6: loops under which rows are deleted run over whole collections (R13.all); several passes over the mailbox rows must keep rows under complementary conditions; no unguarded numeric conversion in the sweep (R13.convert); text columns keep text (R13.exact).'
